@@ -541,6 +541,39 @@ func ruleSH1(c *Ctx) *rule {
 	return r
 }
 
+// isNotOkPredicate: every return of the predicate is `!elem.Ok()` (a module Ok method) or `elem.Status != 0`.
+func isNotOkPredicate(pred *ssa.Function) bool {
+	elem := predElem(pred)
+	if elem == nil {
+		return false
+	}
+	rets := returnsOf(pred)
+	if len(rets) == 0 {
+		return false
+	}
+	for _, pr := range rets {
+		if len(pr.Results) != 1 {
+			return false
+		}
+		pv, ppol := normCond(pr.Results[0], true)
+		isNotOk := false
+		if cl, ok := pv.(*ssa.Call); ok && !ppol {
+			if cf := cl.Common().StaticCallee(); cf != nil && cf.Name() == "Ok" && inModule(cf) && len(cl.Common().Args) > 0 && sameOrigins(cl.Common().Args[0], elem) {
+				isNotOk = true
+			}
+		}
+		if bo, ok := pv.(*ssa.BinOp); ok && ((ppol && bo.Op == token.NEQ) || (!ppol && bo.Op == token.EQL)) {
+			if n, isC := constInt(bo.Y); isC && n == 0 && loadedField(bo.X) == "shell.Result.Status" {
+				isNotOk = true
+			}
+		}
+		if !isNotOk {
+			return false
+		}
+	}
+	return true
+}
+
 // okMethodSound: Result.Ok returns Status == 0; the collection forms return false as soon as an element's Ok is false
 // (inside a full range over the receiver) and true only after the loop; task.Result.Ok delegates to CommandResults.Ok.
 func okMethodSound(c *Ctx, f *ssa.Function) (bool, string) {
@@ -569,6 +602,32 @@ func okMethodSound(c *Ctx, f *ssa.Function) (bool, string) {
 	}
 	// slice receiver
 	fi := c.info(f)
+	if len(fi.loops) == 0 {
+		// every way of returning true is under "no element of the receiver is not-Ok" (a search that found nothing), every way of
+		// returning false under "some element is"
+		judge := func(want bool) bool {
+			sets := c.resultGuardSets(f, want)
+			if len(sets) == 0 {
+				return false
+			}
+			for _, set := range sets {
+				has := false
+				for _, g := range set {
+					coll, pred, found, isSearch := searchTest(g.cond, g.pol)
+					if isSearch && sameOrigins(coll, recv) && found == !want && isNotOkPredicate(pred) {
+						has = true
+					}
+				}
+				if !has {
+					return false
+				}
+			}
+			return true
+		}
+		if judge(true) && judge(false) {
+			return true, "true exactly when a search over the whole collection finds no element that is not Ok"
+		}
+	}
 	if len(fi.loops) == 0 && len(rets) == 1 {
 		// !slices.ContainsFunc(recv, notOk)  /  slices.IndexFunc(recv, notOk) < 0
 		v, pol := normCond(rets[0].Results[0], true)
@@ -708,6 +767,10 @@ func ruleST3(c *Ctx) *rule {
 				if a, ok := v.(*ssa.Alloc); ok && isNamed(a.Type(), "bytes", "Buffer") {
 					buf = a
 				}
+				// a Buffer that is a field of a local struct (`var out capture; io.MultiWriter(&out.stdout, …)`)
+				if fa, ok := v.(*ssa.FieldAddr); ok && isNamed(fa.Type(), "bytes", "Buffer") && baseAlloc(fa) != nil {
+					buf = fa
+				}
 			}
 			other := "Stderr"
 			if want == "Stderr" {
@@ -736,7 +799,7 @@ func ruleST3(c *Ctx) *rule {
 				n++
 				for _, o := range origins(st.Val) {
 					if call, ok := o.(*ssa.Call); ok && calleeName(call.Common()) == "(*bytes.Buffer).String" {
-						if bufs[idx] != nil && len(origins(call.Common().Args[0])) == 1 && origins(call.Common().Args[0])[0] == bufs[idx] {
+						if bufs[idx] != nil && len(origins(call.Common().Args[0])) == 1 && (origins(call.Common().Args[0])[0] == bufs[idx] || sameCell(origins(call.Common().Args[0])[0], bufs[idx])) {
 							okStore = true
 						}
 					}
@@ -751,7 +814,7 @@ func ruleST3(c *Ctx) *rule {
 				r.bad(key, c.pos(f.Pos()), "Result."+want+" is not exactly the String() of the buffer that captured the command's "+want)
 			}
 		}
-		if bufs[0] != nil && bufs[0] == bufs[1] {
+		if bufs[0] != nil && bufs[1] != nil && (bufs[0] == bufs[1] || sameCell(bufs[0], bufs[1])) {
 			r.bad(fname(f)+" distinct buffers", c.pos(f.Pos()), "stdout and stderr are captured into the same buffer")
 		}
 		// Cmd and program
